@@ -15,3 +15,23 @@ print("| seed | what the change does | what it needs to manifest | first run of 
 print("|---|---|---|---|---|---|")
 for n, p, b, need, fr, fin, how, suite in rows:
     print(f"| `{n}` | {b} | {need} | {fr} | {fin.split(':')[0]} | {how} |")
+
+
+def update_design():
+    """Replace the table of section 8.5 in DESIGN.md by the current one (`python harness/seedtable.py --update`)."""
+    import io, contextlib, runpy, sys
+    p = os.path.join(os.path.dirname(__file__), "..", "DESIGN.md")
+    s = open(p).read()
+    head = "| seed | what the change does |"
+    i = s.index(head)
+    j = s.index("\n\n", i)
+    lines = ["| seed | what the change does | what it needs to manifest | first run of the check | now | mechanism that catches it |", "|---|---|---|---|---|---|"]
+    for n, pp, b, need, fr, fin, how, suite in rows:
+        lines.append(f"| `{n}` | {b} | {need} | {fr} | {fin.split(':')[0]} | {how} |")
+    open(p, "w").write(s[:i] + "\n".join(lines) + s[j:])
+
+
+if __name__ == "__main__":
+    import sys
+    if "--update" in sys.argv:
+        update_design()
